@@ -34,6 +34,11 @@ def gen_case(rng, tier):
     else:
         k = rng.choice([2, 2, 3, rng.randrange(1, max(2, min(n, 12)) + 1), rng.randrange(1, n + 1)])
     k = max(1, min(k, n))
+    if big:
+        # the estimator is O(#strata * n + #classes * n): keep big inputs to few strata / classes
+        if shape == 'singletons':
+            shape = 'random'
+        k = min(k, rng.choice([1, 2, 3, 12, 30]))
     if shape == 'balanced':
         X = [i * k // n for i in range(n)]
         if rng.random() < 0.5:
@@ -51,6 +56,8 @@ def gen_case(rng, tier):
         m = {v: rng.randrange(0, 2 ** 20) for v in set(X)}
         X = [m[v] for v in X]
     ky = rng.choice([1, 2, 2, 3, rng.randrange(1, n + 1)])
+    if big:
+        ky = min(ky, 30)
     ymode = rng.random()
     if ymode < 0.08:
         Y = list(X)
@@ -191,6 +198,15 @@ def evaluate(pool, groups):
     return out
 
 
+UNSAFE = {'died', 'exception', 'nonfinite', 'nondeterministic', 'abnormal-exit'}
+
+
+def family(cls):
+    """Reading uninitialised memory shows up as a crash, an exception, a non-finite or a varying score depending on
+    what the natural (uncontrolled) heap of that process holds; minimisation and replay treat these as one class."""
+    return 'memory-unsafe' if cls in UNSAFE else cls
+
+
 def first_failure(ev):
     """(cls, detail, case_index or None)"""
     if ev['group_fail'] and ev['group_fail'][0] != 'timeout':
@@ -213,11 +229,11 @@ def shrink(pool, group, cls, budget=40):
     def fails(g):
         ev = evaluate(pool, [g])[0]
         ff = first_failure(ev)
-        return ff is not None and ff[0] == cls
+        return ff is not None and family(ff[0]) == family(cls)
 
     def fails_many(gs):
         evs = evaluate(pool, gs)
-        return [(first_failure(ev) or (None,))[0] == cls for ev in evs]
+        return [family((first_failure(ev) or (None,))[0]) == family(cls) for ev in evs]
 
     cur = group
     # 1. only the last case
@@ -312,7 +328,9 @@ def run(args):
     groups_per_round = 16
     found = False
     rounds = 0
-    while rep.elapsed() < budget and not found:
+    import time as _time
+    t_start = _time.time()
+    while (rounds == 0 or _time.time() - t_start < budget) and not found:
         rounds += 1
         groups = []
         for _ in range(groups_per_round):
@@ -354,7 +372,7 @@ def run(args):
                 pick = None
                 for sg, se in zip(singles, sev):
                     sf = first_failure(se)
-                    if sf is not None and sf[0] == cls:
+                    if sf is not None and family(sf[0]) == family(cls):
                         pick = sg
                         detail = sf[1]
                         break
@@ -363,8 +381,9 @@ def run(args):
                 group = dict(g, cases=g['cases'][:ci + 1])
             small = shrink(pool, group, cls)
             fin = first_failure(evaluate(pool, [small])[0])
-            if fin is None or fin[0] != cls:
+            if fin is None or family(fin[0]) != family(cls):
                 small, fin = group, (cls, detail, None)
+            cls = fin[0]
             c = small['cases'][-1]
             key = f"n={len(c['X'])} r={c['r']} corr={c['corr']}"
             new = rep.violation(cls, key, {'observed': fin[1], 'case': {k: c[k] for k in ('Y', 'X', 'r', 'corr', 'alter')},
@@ -377,7 +396,10 @@ def run(args):
             # a child that neither returned nor died within its wall limit: not silently ok, and not
             # attributable with certainty -> harness outcome (exit 2)
             raise common.HarnessError(f'child wall-limit exceeded in alloc engine: {timeouts[0]}')
-    rep.extra['real_components'] = ['outrank.algorithms.feature_ranking.ranking_mi_numba (all kernels, compiled by numba from /repo)']
+    if not found:
+        found = pipeline_mode(pool, rep, rng, args, wall=budget * 0.25)
+    rep.extra['real_components'] = ['outrank.algorithms.feature_ranking.ranking_mi_numba (all kernels, compiled by numba from /repo)',
+                                    'pipeline mode: the full ranking task with --mi_stratified_sampling_ratio < 1 (engine pipe)']
     rep.extra['stub_components'] = ['allocator fill (sim/alloc/poison.c around libc malloc)', 'allocator history (seeded churn of numba arrays)']
     rep.extra['rounds'] = rounds
     rep.extra['processes_per_case'] = 4
@@ -386,15 +408,103 @@ def run(args):
     return code
 
 
+PIPE_PROFILE = {
+    'oracles': [],
+    'heuristics': ['MI-numba-randomized'],
+    'minibatch': [6, 10, 25, 60],
+    'batches': [1, 2],
+    'delta': [0, 1],
+    'ncols': [2, 3, 4, 5],
+    'malformed': [0.0],
+    'target_only': ['True', 'False'],
+    'subsampling': [1],
+    'poison': 0.0,
+    'cli_extra': {'mi_stratified_sampling_ratio': lambda rng, wl: rng.choice([0.05, 0.1, 0.3, 0.53, 0.7, 0.9, 0.99])},
+}
+
+
+def pipeline_mode(pool, rep, rng, args, wall):
+    """The whole ranking task with --mi_stratified_sampling_ratio < 1 must write the same pairwise ranks
+    whatever the allocator hands out (same schedule, same hash seed; only the poison pattern differs)."""
+    import copy
+    import time
+    from checks import pipe_common
+    t0 = time.time()
+    while time.time() - t0 < wall:
+        fams = []
+        jobs = []
+        for _ in range(16):
+            base = pipe_common.gen_spec(rng, PIPE_PROFILE)
+            base.pop('poison', None)
+            base['hashseed'] = rng.choice(pool.hashseeds)
+            n = len(base['workload']['lines'])
+            pal = palette(max(1, base['cli']['minibatch_size']))
+            w1, w2 = rng.sample(pal, 2)
+            members = []
+            for pz in (None, {'mode': 0, 'word': w1[1], 'name': w1[0]}, {'mode': 0, 'word': w2[1], 'name': w2[0]}, {'mode': 1, 'seed': rng.randrange(1, 2 ** 63), 'name': 'stream'}):
+                m = copy.deepcopy(base)
+                if pz:
+                    m['poison'] = pz
+                members.append(m)
+                jobs.append(pipe_common.job_of(m))
+            fams.append(members)
+        res = pool.run(jobs)
+        pos = 0
+        for members in fams:
+            outs = []
+            for m, r in zip(members, res[pos:pos + 4]):
+                ph = pipe_common.phase_values(r)[0]['proc']
+                if ph['status'] == 'died':
+                    outs.append(('died', ph['signal']))
+                elif ph['status'] != 'returned':
+                    raise common.HarnessError(f'pipeline-mode process: {ph["status"]}')
+                else:
+                    v = ph['value']
+                    outs.append((v.get('status'), pipe_common.exception_key(v.get('trace', '')) if v.get('status') == 'exception' else None, v.get('ranks')))
+            pos += 4
+            rep.evaluations += 1
+            rep.add_counts(rep.probes, {'pipeline_mode_families': 1})
+            rep.add_counts(rep.fault_counts, {'pipeline:poison_patterns': 3})
+            if len({json.dumps(o, sort_keys=True, default=repr) for o in outs}) > 1:
+                k = next(i for i, o in enumerate(outs) if o != outs[0])
+                new = rep.violation('pipeline-poison-dependent', 'pipeline-poison-dependent',
+                                    {'observed': {'poison_a': (members[0].get('poison') or {}).get('name'), 'poison_b': (members[k].get('poison') or {}).get('name'),
+                                                  'outcome_a': str(outs[0])[:300], 'outcome_b': str(outs[k])[:300]}, 'spec': pipe_common.spec_summary(members[0])},
+                                    {'pipeline_pair': [members[0], members[k]], 'seed': args.seed})
+                if new and not args.keep_going:
+                    return True
+    return False
+
+
+def replay_pipeline(args, obj):
+    from checks import pipe_common
+    a, b = obj['pipeline_pair']
+    pool = common.ZygotePool(hashseeds=[a.get('hashseed') or 0], width=2)
+    rs = pool.run([pipe_common.job_of(a), pipe_common.job_of(b)])
+    pool.close()
+    outs = []
+    for r in rs:
+        ph = pipe_common.phase_values(r)[0]['proc']
+        outs.append(ph['status'] if ph['status'] != 'returned' else (ph['value'].get('status'), ph['value'].get('ranks')))
+    if outs[0] != outs[1]:
+        print('REPRODUCED class=pipeline-poison-dependent')
+        print(f'VIOLATION property=C04 replay={args.replay}')
+        return 1
+    print('NOT-REPRODUCED')
+    return 0
+
+
 def replay(args, rep):
     with open(args.replay) as fh:
         obj = json.load(fh)
+    if 'pipeline_pair' in obj:
+        return replay_pipeline(args, obj)
     pool = common.ZygotePool(hashseeds=[0, 1], width=4)
     ev = evaluate(pool, [obj['group']])[0]
     ff = first_failure(ev)
     pool.close()
-    if ff is not None and ff[0] == obj['class']:
-        print(f"REPRODUCED class={ff[0]} detail={json.dumps(ff[1], default=repr)[:600]}")
+    if ff is not None and family(ff[0]) == family(obj['class']):
+        print(f"REPRODUCED class={ff[0]} (family {family(ff[0])}) detail={json.dumps(ff[1], default=repr)[:600]}")
         print(f"VIOLATION property=C04 replay={args.replay}")
         return 1
     print(f'NOT-REPRODUCED expected class={obj["class"]} got={ff}')
